@@ -17,13 +17,13 @@ fn main() {
     let ops = script["ops"].as_array().cloned().unwrap_or_default();
     // marker syscall so that the orchestrator can tell start-up from the operation
     let _ = std::fs::metadata(root.join(".oprunner-start"));
+    // the verdict is the exit status; diagnostics must never influence it (a second injected fault
+    // may land on this very write)
+    use std::io::Write;
     match vh::vbscript::run_ops(&ctx, &ops, &root.join("buildpack/src")) {
-        Ok(()) => {
-            println!("OK");
-            std::process::exit(0)
-        }
+        Ok(()) => std::process::exit(0),
         Err(e) => {
-            println!("ERR {}", format!("{e:?}").replace('\n', " "));
+            let _ = writeln!(std::io::stderr(), "ERR {}", format!("{e:?}").replace('\n', " "));
             std::process::exit(3)
         }
     }
